@@ -743,6 +743,13 @@ def printer_skeleton(prog, I, dfn, gsv):
                     a = I.static_cells.get(a.fields[0].cell, a)       # a String whose text is known
                 if isinstance(a, Struct) and a.ty == '$charstr' and isinstance(a.fields[0], BV) and a.fields[0].known():
                     a = a.fields[0]
+                if isinstance(a, (Enum, Struct)) and not a.ty.startswith(('$', 'std::', 'core::', 'tuple')) and not _has_ite(a):
+                    # a known value of a local type with its own Display impl (`enum Cell { .. }`): its printed text
+                    txt = _local_display_text(prog, I, a)
+                    if txt is None:
+                        return None, 'cannot print the local value %r' % (a,)
+                    out.extend(txt)
+                    continue
                 if isinstance(a, Term) and a.kind == 'tok':
                     out.append(('N',))
                 elif as_text(a) is not None and not isinstance(a, BV):
@@ -769,11 +776,48 @@ def printer_skeleton(prog, I, dfn, gsv):
                                             idxs.add(d[1])
                             stack.extend([x.a, x.b])
                     if len(idxs) != 1:
-                        return None, 'a printed item depends on the board bits of squares %s (expected one square)' % sorted(idxs)
+                        return None, 'a printed item (%s) depends on the board bits of squares %s (expected one square)' % (repr(a)[:160], sorted(idxs))
                     out.append(('L', idxs.pop()))
             if pending:
                 return None, 'format arguments left over'
     return out, None
+
+
+def _has_ite(v):
+    if isinstance(v, Ite):
+        return True
+    if isinstance(v, (Enum, Struct)):
+        return any(_has_ite(x) for x in v.fields if isinstance(x, (Ite, Enum, Struct)))
+    return False
+
+
+def _local_display_text(prog, I, value):
+    """text written by the Display impl of a local type for a known value (literal pieces and `write_str` calls only)"""
+    dfn = find_impl(prog, 'std::fmt::Display', value.ty, 'fmt')
+    if dfn is None:
+        return None
+    ev = []
+    saved = I.watch
+    I.watch = {"Arguments::<'a>::from_str": _Tagged('lit', ev), 'Formatter::write_str': _Tagged('ws', ev),
+               "Formatter::<'a>::write_str": _Tagged('ws', ev), "Arguments::<'a>::new": _Tagged('new', ev)}
+    try:
+        st = State({})
+        v = inputs.ref_to(I, st, 'lv', value)
+        f = inputs.ref_to(I, st, 'lf', Tok('fmt', 'std::fmt::Formatter'))
+        I.call_fn(dfn, [v, Ref(f.cell, (), True)], st)
+    except Undecided:
+        return None
+    finally:
+        I.watch = saved
+    out = []
+    for tag, (caller, args) in ev:
+        if tag == 'new':
+            return None
+        txt = as_text(args[-1]) if args else None
+        if txt is None:
+            return None
+        out.extend(txt)
+    return out
 
 
 def check_print_parse_layout(ctx, prog, prop):
